@@ -753,9 +753,20 @@ func OrExpr(query *Query, current Map, expr *sqlparser.OrExpr, opts ...ExprOptio
 	return *leftValue || *rightValue, nil
 }
 
+// scopeOf returns a shallow copy of the current row that carries the `<-`
+// back reference. Sub expressions are evaluated against this copy so that the
+// rows of the caller's input are never written to
+func scopeOf(query *Query, current Map) Map {
+	scope := make(Map, len(current)+1)
+	for key, value := range current {
+		scope[key] = value
+	}
+	scope["<-"] = query.data
+	return scope
+}
+
 func ComparisonExpr(query *Query, current Map, expr *sqlparser.ComparisonExpr, opts ...ExprOption) (bool, error) {
-	current["<-"] = query.data
-	defer delete(current, "<-")
+	current = scopeOf(query, current)
 	left, err := Expr(query, current, expr.Left, opts...)
 	if err != nil {
 		return false, err
@@ -1292,11 +1303,7 @@ func SelectExpr(query *Query, current Map, expr *sqlparser.SelectExprs, opts ...
 
 func SubqueryExpr(query *Query, current Map, expr *sqlparser.Subquery, opts ...ExprOption) (any, error) {
 	// Backward Navigation
-	current["<-"] = query.data
-	query.postProcessors = append(query.postProcessors, func() error {
-		delete(current, "<-")
-		return nil
-	})
+	current = scopeOf(query, current)
 	subQuery, err := Prepare(current, expr.Select, query.options)
 	if err != nil {
 		return nil, err
@@ -1339,25 +1346,28 @@ func CaseExpr(query *Query, current Map, expr *sqlparser.CaseExpr, opts ...ExprO
 // it finds the first value
 func ExistExpr(query *Query, current Map, expr *sqlparser.ExistsExpr, opts ...ExprOption) (bool, error) {
 	// Backward Navigation
-	current["<-"] = query.data
-	query.postProcessors = append(query.postProcessors, func() error {
-		delete(current, "<-")
-		return nil
-	})
+	current = scopeOf(query, current)
 	q, err := Prepare(current, expr.Subquery.Select, query.options)
 	if err != nil {
 		return false, err
 	}
+	// the outer row is made visible to the sub query on copies of its rows
+	from := make([]any, len(q.from))
 	for i := 0; i < len(q.from); i++ {
 		item, ok := q.from[i].(Map)
 		if !ok {
 			return false, INVALID_TYPE.Extend(fmt.Sprintf("failed to build `EXIST` expression. expected an object but found %T", item))
 		}
-		for key, value := range current {
-			item[key] = value
+		merged := make(Map, len(item)+len(current))
+		for key, value := range item {
+			merged[key] = value
 		}
-		q.from[i] = item
+		for key, value := range current {
+			merged[key] = value
+		}
+		from[i] = merged
 	}
+	q.from = from
 	rs, err := q.exec()
 	array, ok := rs.([]any)
 	if !ok {
